@@ -51,7 +51,8 @@ def opts_sig(o):
         'P' if o['per_constraint'] else 'p', 'W' if o['write_all'] else 'w',
         {'none': 'o', 'all': 'A', 'first': 'F', None: 'o'}[o['output_fields']],
         'I' if o['index'] else 'i', 'L' if o['in_place'] else 'l',
-        'V' if o['interleave'] else 'v', 'B' if o['boolean_ints'] else 'b'])
+        'V' if o['interleave'] else 'v', 'B' if o['boolean_ints'] else 'b',
+        't' if o.get('of_form') == 'tuple' else ''])
 
 
 def violated_and_satisfied(col, kind, tier):
@@ -168,6 +169,13 @@ class C06(Check):
             ('two', 'two constraints on one or two fields (violated / '
                     'satisfied / missing field / type failure), a few option '
                     'points, all sinks'),
+            ('forms', 'the FORM of the path arguments: outpath and the '
+                      'constraints file each named as str, relative str, '
+                      'pathlib.Path, pure path and os.PathLike - full option '
+                      'product x {CSV, parquet} per outpath form; outpath form '
+                      'x constraints form x {no file, CSV, parquet} x {absent, '
+                      'stale}; every clause as before + same frame and same '
+                      'file as for the plain str'),
             ('hist', 'E3: histories of detections on one CSV and one parquet '
                      'path, from absent or stale files'),
         ]
@@ -222,6 +230,17 @@ class C06(Check):
                     continue
                 for k1 in A.KINDS:
                     yield {'L': 'two', 'col': col, 'k1': k1}
+        elif layer == 'forms':
+            for fi in FORM_FRAMES_FULL:
+                for sink in ('csv', 'parquet'):
+                    for part in range(8):
+                        yield {'L': 'forms', 'mode': 'options', 'frame': fi,
+                               'sink': sink, 'part': part}
+            for fi in range(len(FORM_FRAMES)):
+                for sink in (None, 'csv', 'parquet'):
+                    for stale in ((False, True) if sink else (False,)):
+                        yield {'L': 'forms', 'mode': 'cross', 'frame': fi,
+                               'sink': sink, 'stale': stale}
         elif layer == 'hist':
             depth = 3 if tier == 'quick' else 4
             for init in ('absent', 'stale-csv', 'stale-parquet', 'stale-both'):
@@ -285,6 +304,8 @@ class C06(Check):
                            {'opts': opts_sig(o)})
         elif L == 'two':
             self.run_two(R, case)
+        elif L == 'forms':
+            self.run_forms(R, case)
         elif L == 'hist':
             self.run_hist(R, case)
         R.nontrivial = R.checked > before
@@ -307,10 +328,23 @@ class C06(Check):
             return ('exc', e)
 
     def judge(self, R, cols, names, index, fields, eps, tc, opts, sink, stale,
-              sub, path=None, keep_file=False):
+              sub, path=None, keep_file=False, path_form=None,
+              cons_form=None):
         """Run verify_df and detect_df on fresh copies of one frame and check
         every clause of the statement.  Returns (failed?, labels written) or
-        None when tdda raised."""
+        None when tdda raised.  path_form / cons_form: the FORM in which
+        outpath / the constraints are handed to detect_df (A.PATH_FORMS;
+        cons_form None = the dictionary itself, otherwise a .tdda file named
+        in that form).  self.last keeps what was returned and written, for
+        differential comparison between forms."""
+        self.last = {'frame': None, 'file': None, 'exists': None}
+        # file clauses name the outpath form, an exception both forms
+        formsig = ''
+        if path_form not in (None, 'str'):
+            formsig += ':outpath=' + path_form
+        excsig = formsig
+        if cons_form not in (None, 'str'):
+            excsig += ':constraints=' + cons_form
         pd = self.pd
         pycols = dict((n, A.py_column(c)) for c, n in zip(cols, names))
         fams = dict((n, c['fam']) for c, n in zip(cols, names))
@@ -337,6 +371,9 @@ class C06(Check):
                   'constraints': json.loads(json.dumps(cdict, default=str)),
                   'epsilon': eps, 'type_checking': tc, 'options': opts,
                   'sink': sink, 'stale': stale}
+        if path_form or cons_form:
+            detail['outpath_form'] = path_form
+            detail['constraints_form'] = cons_form or 'dict'
         kinds_sig = '+'.join(sorted(set(e['kind'] for es in fields.values()
                                         for e in es)))
         famsig = '+'.join(sorted(set(fam_class(f) for f in fams.values())))
@@ -367,11 +404,21 @@ class C06(Check):
             extra['output_fields'] = []
         elif of == 'first':
             extra['output_fields'] = [names[0]]
+        if opts.get('of_form') == 'tuple' and 'output_fields' in extra:
+            # the FORM of the field list: a tuple instead of a list
+            extra['output_fields'] = tuple(extra['output_fields'])
         if opts['interleave']:
             extra['interleave'] = True
         if sink:
-            extra['outpath'] = path
-        ds, dv = self.call(self.detect_df, df, full, eps, tc, repair, extra)
+            extra['outpath'] = A.path_in_form(path, path_form)
+        cons_arg = full
+        if cons_form is not None:
+            cpath = os.path.join(self.sandbox, 'constraints.tdda')
+            with open(cpath, 'w') as fh:
+                json.dump(full, fh)
+            cons_arg = A.path_in_form(cpath, cons_form)
+        ds, dv = self.call(self.detect_df, df, cons_arg, eps, tc, repair,
+                           extra)
         R.ev(1 if cached else 2)
         if ds == 'exc' or vs == 'exc':
             R.out('raise:%s/%s' % (type(dv).__name__ if ds == 'exc' else 'ok',
@@ -382,8 +429,9 @@ class C06(Check):
                 return None
             who = 'detect' if ds == 'exc' else 'verify-only'
             e = dv if ds == 'exc' else vv
-            R.viol('%s-raises:%s:%s' % (who, type(e).__name__,
-                                        self.exc_disc(e, opts, sink)),
+            R.viol('%s-raises:%s:%s%s' % (who, type(e).__name__,
+                                          self.exc_disc(e, opts, sink),
+                                          excsig),
                    'detection-agrees-with-verification-no-raise',
                    dict(detail, exception=repr(e)[:300]), sub)
             return None
@@ -485,9 +533,10 @@ class C06(Check):
                            dv.detection.n_failing_records)), sub)
             if sink:
                 R.checked += 1
+                self.last['exists'] = os.path.exists(path)
                 if os.path.exists(path):
-                    R.viol('file-after-clean-run:%s:%s'
-                           % (sink, 'stale' if stale else 'fresh'),
+                    R.viol('file-after-clean-run:%s:%s%s'
+                           % (sink, 'stale' if stale else 'fresh', formsig),
                            'output-file-only-if-some-constraint-failed',
                            dict(detail, content=self.peek(path)), sub)
             self.check_input(R, df, pre, opts, None, detail, sub, famsig)
@@ -511,6 +560,7 @@ class C06(Check):
                         rows=nrows), sub)
         add_index = opts['index'] or opts['output_fields'] == 'none'
         self.flag_bad = False
+        self.last['frame'] = self.table_state(det)
         self.check_table(R, 'frame', det, labels, pre, names, failing, ref_nf,
                          opts, False, detail, sub, kinds_sig, famsig)
         if self.flag_bad:
@@ -526,18 +576,20 @@ class C06(Check):
         written = None
         if sink:
             R.checked += 1
+            self.last['exists'] = os.path.exists(path)
             if not os.path.exists(path):
                 if nfail > 0 or opts['write_all']:
-                    R.viol('no-file-after-failing-run:%s' % sink,
+                    R.viol('no-file-after-failing-run:%s%s' % (sink, formsig),
                            'output-file-holds-failing-records', detail, sub)
             else:
                 tab = self.read_file(path, sink)
                 if tab is None:
-                    R.viol('unreadable-output:%s:%s'
-                           % (sink, 'stale' if stale else 'fresh'),
+                    R.viol('unreadable-output:%s:%s%s'
+                           % (sink, 'stale' if stale else 'fresh', formsig),
                            'output-file-holds-failing-records',
                            dict(detail, content=self.peek(path)), sub)
                 else:
+                    self.last['file'] = self.table_state(tab)
                     written = self.check_table(
                         R, sink, tab, labels, pre, names, failing, ref_nf,
                         opts, add_index, detail, sub, kinds_sig, famsig)
@@ -555,6 +607,20 @@ class C06(Check):
         if "can't compare datetime.datetime to datetime.date" in msg:
             return 'date-objects-compared-with-datetime-bound'
         return msg[:40]
+
+    def table_state(self, tab):
+        """A returned frame / a file read back, as comparable plain data:
+        column labels in order, dtypes, index labels, cells with their null
+        flavour."""
+        try:
+            return {'columns': [str(c) for c in tab.columns],
+                    'dtypes': [str(t) for t in tab.dtypes.tolist()],
+                    'index': [repr(x) for x in tab.index],
+                    'index-names': [repr(n) for n in tab.index.names],
+                    'cells': [['%s:%r' % (type(x).__name__, x) for x in row]
+                              for row in tab.to_numpy(dtype=object).tolist()]}
+        except Exception as e:
+            return {'unreadable': repr(e)[:100]}
 
     def peek(self, path):
         try:
@@ -863,6 +929,83 @@ class C06(Check):
                                 'second_c': second[0]['kind'],
                                 'opts': opts_sig(o), 'sink': sink})
 
+    # ----------------------------------------------------------- layer forms
+    def run_forms(self, R, case):
+        """The same detection with the path arguments in every form.  The
+        plain str (dictionary for the constraints) runs first and is the
+        reference of the differential clause; every run is also judged
+        against the model like any other."""
+        fr = FORM_FRAMES[case['frame']]
+        sink = case['sink']
+        fields = OrderedDict((f, [spec_entry(*e) for e in es])
+                             for f, es in fr['fields'])
+        if case['mode'] == 'options':
+            points = [(o, False, pf, None) for n, o in enumerate(
+                opts_product()) if n % 8 == case['part']
+                for pf in A.PATH_FORMS]
+        else:
+            optpoints = [dict(BASE_OPTS),
+                         dict(BASE_OPTS, write_all=True, output_fields='all',
+                              index=True, boolean_ints=True),
+                         dict(BASE_OPTS, per_constraint=False, in_place=True,
+                              output_fields='first', interleave=True),
+                         dict(BASE_OPTS, write_all=True, output_fields='all',
+                              index=True, boolean_ints=True,
+                              of_form='tuple'),
+                         dict(BASE_OPTS, per_constraint=False, in_place=True,
+                              output_fields='first', interleave=True,
+                              of_form='tuple')]
+            # full cross of the two forms at the base option point, the
+            # diagonal (both arguments in the same form) at the other two
+            points = [(o, case['stale'], pf, cf)
+                      for i, o in enumerate(optpoints)
+                      for cf in [None] + A.PATH_FORMS
+                      for pf in (A.PATH_FORMS if sink else [None])
+                      if i == 0 or pf is None or cf == pf or cf is None]
+        ref = {}
+        for (o, stale, pf, cf) in points:
+            self.clean_sandbox()
+            res = self.judge(R, fr['cols'], fr['names'], None, fields, 0.25,
+                             None, o, sink, stale,
+                             {'opts': opts_sig(o), 'outpath_form': pf,
+                              'constraints_form': cf},
+                             path_form=pf, cons_form=cf)
+            # one argument at a time: the constraints file in any form
+            # against the dictionary (same outpath form), then the outpath
+            # in any form against the plain str (dictionary constraints)
+            got = (res is None, dict(self.last))
+            if cf is None:
+                ref[(opts_sig(o), pf)] = got
+                if pf in (None, 'str'):
+                    if o.get('of_form') != 'tuple':
+                        continue
+                    key = (opts_sig(o)[:-1], pf)      # the list form
+                    arg = 'output_fields=tuple'
+                else:
+                    key = (opts_sig(o), 'str')
+                    arg = 'outpath=' + pf
+            else:
+                key = (opts_sig(o), pf)
+                arg = 'constraints=' + cf
+            if key not in ref:
+                continue
+            R.checked += 1
+            if got != ref[key]:
+                what = ('raises' if got[0] != ref[key][0] else [
+                    k for k in ('exists', 'file', 'frame')
+                    if got[1][k] != ref[key][1][k]][0])
+                R.viol('path-form-changes-result:%s:%s:%s' % (
+                    arg, sink or 'nofile', what),
+                    'every-form-of-a-path-names-the-same-file',
+                    {'frame': dict((n, c) for c, n in zip(fr['cols'],
+                                                          fr['names'])),
+                     'fields': fr['fields'], 'options': o, 'sink': sink,
+                     'stale': stale, 'outpath_form': pf,
+                     'constraints_form': cf or 'dict',
+                     'with_str': ref[key][1], 'with_this_form': got[1]},
+                    {'opts': opts_sig(o), 'outpath_form': pf,
+                     'constraints_form': cf})
+
     # ------------------------------------------------------------ layer hist
     def run_hist(self, R, case):
         """E3: BFS over histories of detections.  State (canonical) = for
@@ -1021,5 +1164,11 @@ OPTION_FRAMES = [
     {'cols': [_I3], 'names': ['a'],
      'fields': [('zz', [('min', 0)])]},              # fails, no record
 ]
+
+# frames of the 'forms' layer (index into OPTION_FRAMES): two fields with
+# nulls, a real column with nulls, a clean run, a failure without a record
+FORM_FRAMES = [OPTION_FRAMES[4], OPTION_FRAMES[3], OPTION_FRAMES[2],
+               OPTION_FRAMES[11]]
+FORM_FRAMES_FULL = [0]             # full option product on this one
 
 CHECK = C06()
